@@ -20,7 +20,7 @@ ASSUMPTIONS = ["AMBA handshake rules for the environment: valid and payload held
                "8-bit data, 6-bit addresses, 1..3 x 1..3, address maps as C06; max 6 handshakes per channel within the bound (monitor counters)",
                "time-out disabled (C11)"]
 BOUNDS = {"quick": "BMC K=10 cycles from reset (AXI-Lite 4 shapes, AXI4 shared 2x2)", "thorough": "BMC from reset: shared K=14 (12 shapes), crossbar K=12 (1x2..2x2), K=10 (2x3, 3x2), K=8 (3x3); AXI4 twins K=12..14, five shapes"}
-OUTSIDE = "AXI4 twins (axi_full.py) are checked with bursts of 1..3 beats of one common (rigid symbolic) length and INCR/any side-band values, 2x2 shared in quick, five shapes in thorough; longer or mixed-length bursts; schedules longer than K"
+OUTSIDE = "more than 255 outstanding requests per direction (the lock counters are proved exact below that by a one-step lemma from an arbitrary count); AXI4 twins (axi_full.py) are checked with bursts of 1..3 beats of one common (rigid symbolic) length and INCR/any side-band values, 2x2 shared in quick, five shapes in thorough; longer or mixed-length bursts; schedules longer than K"
 FUNCS = ["litex.soc.interconnect.axi.axi_full.AXIInterconnectShared/AXICrossbar/AXIArbiter/AXIDecoder (axi_* harnesses)", "litex.soc.interconnect.axi.axi_lite._AXILiteRequestCounter", "litex.soc.interconnect.axi.axi_lite.AXILiteArbiter", "litex.soc.interconnect.axi.axi_lite.AXILiteDecoder",
          "litex.soc.interconnect.axi.axi_lite.AXILiteInterconnectShared", "litex.soc.interconnect.axi.axi_lite.AXILiteCrossbar",
          "litex.soc.interconnect.axi.axi_lite.AXILiteInterface.layout_flat", "litex.soc.interconnect.axi.axi_common.connect_axi/axi_layout_flat",
